@@ -54,8 +54,8 @@ Lemma reachdist2_spec fuel : forall CP R D q row col R' D' p',
 Proof.
   induction fuel as [|f IH]; intros CP R D q row col R' D' p' Hq Hqn HP HI Hrun; [discriminate|].
   cbn [reachdist2] in Hrun.
-  pose proof (pow_ok_S n C HCnn q CP Hq HP) as HP'.
-  set (CP' := tab 0 n n (matmul n CP C)) in *.
+  pose proof (pow_ok_clip n C _ _ (pow_ok_S n C HCnn q CP Hq HP)) as HP'.
+  set (CP' := tab 0 n n (fun i j => b2z (znz (tab 0 n n (matmul n CP C) i j)))) in *.
   set (R1 := tab false n n (fun i j => (R i j || znz (CP' i j))%bool)) in *.
   set (D1 := tab 0 n n (fun i j => D i j + b2z (R1 i j))) in *.
   assert (HI1 : forall i j, (i < n)%nat -> (j < n)%nat -> rinv (S q) (R1 i j) (D1 i j) i j).
